@@ -191,13 +191,19 @@ class MindsDBParser(Parser):
     def create_chat_bot(self, p):
         params = p.kw_parameter_list
 
-        database = Identifier(params.pop('database'))
-        model_param = params.pop('model', None)
-        agent_param = params.pop('agent', None)
-        model = Identifier(
-            model_param) if model_param is not None else None
-        agent = Identifier(
-            agent_param) if agent_param is not None else None
+        def to_identifier(name, required=False):
+            value = params.pop(name, None)
+            if value is None and not required:
+                return None
+            if isinstance(value, Identifier):
+                return value
+            if not isinstance(value, str) or value == '':
+                raise ParsingException(f"CREATE CHATBOT: '{name}' must be a name")
+            return Identifier(value)
+
+        database = to_identifier('database', required=True)
+        model = to_identifier('model')
+        agent = to_identifier('agent')
         return CreateChatBot(
             name=p.identifier,
             database=database,
